@@ -266,5 +266,40 @@ def run(ck):
     ck.require_fact("T6.complete-when-idle", ck.flow(facts.fn(CL + "nonBlockingCheck")), ev_call(CL + "completeNonBlocking"), busy, False, "completeNonBlocking()")
     fl = ck.flow(facts.fn(CL + "completeNonBlocking"), markers={"cb": ev_call(CL + "checkCallback")})
     ck.require_passed("T6.complete-when-idle", fl, ev_exit(), "cb", "exit")
-    ck.assume("keepMatching()/finished()/asyncInProgress() are inline accessors in Checklist.h (not extracted); Acl::Node::matches(), goAsync() loop "
-              "protection and the equality of the whole evaluation with a reference evaluator over all rule lists and schedules are not decided")
+    ck.rule("T7 async-loop guard: matchChild() records matchLoc_ = Breadcrumb(current, pos) and zeroes asyncLoopDepth_ before it descends into the child "
+            "(matches()/resumeMatchingAt()), so the retry budget in goAsync() counts re-entries of *one* tree position, not lookups of the whole check; "
+            "goAsync() refuses (return false before starter()) on the retry budget only with matchLoc_ == asyncLoc_ established, and records "
+            "asyncLoc_ = matchLoc_ and ++asyncLoopDepth_ before starter()")
+    mc = facts.fn(CL + "matchChild")
+    zero = ev_assign(CL + "asyncLoopDepth_", E.m_const(0))
+    pcur, ppos = param(mc, 0), param(mc, 1)
+    loc = ev_call("ACLChecklist::Breadcrumb::operator=", obj=E.m_is_mem(CL + "matchLoc_"),
+                  arg={0: E.M(lambda t: E.strip(t).get("k") == "ctor" and len(E.strip(t).get("a", [])) == 2 and E.m_is_ref(pcur)(E.strip(t)["a"][0]) and E.m_is_ref(ppos)(E.strip(t)["a"][1]), "Breadcrumb(current,pos)")})
+    descend = ev_call({"Acl::Node::matches", "Acl::InnerNode::resumeMatchingAt"})
+    fl = ck.flow(mc, markers={"zero": zero, "loc": loc})
+    ck.sites(fl, descend, "child->matches()/resumeMatchingAt()", 2)
+    ck.require_passed("T7.per-node-budget", fl, descend, "zero", "descending into the child")
+    ck.require_passed("T7.per-node-budget", fl, descend, "loc", "descending into the child")
+    ga = facts.fn(CL + "goAsync")
+    same = E.m_cmp("==", E.m_is_mem(CL + "matchLoc_"), E.m_is_mem(CL + "asyncLoc_"))
+    start_ev = lambda ev: ev.get("e") == "call" and E.strip(ev["x"]).get("ind") == 1 and E.strip(ev["x"]).get("f") == param(ga, 0)
+    fl = ck.flow(ga, markers={"started": start_ev, "bump": ev_assign(CL + "asyncLoopDepth_", None, ops=("++", "+=")), "rec": ev_call("ACLChecklist::Breadcrumb::operator=", obj=E.m_is_mem(CL + "asyncLoc_"), arg={0: E.m_is_mem(CL + "matchLoc_")})},
+                 track_markers=["started"])
+    ck.sites(fl, start_ev, "starter()", 1)
+    ck.require_passed("T7.goasync-order", fl, start_ev, "bump", "starter()")
+    ck.require_passed("T7.goasync-order", fl, start_ev, "rec", "starter()")
+    budget = E.M(lambda t: E.strip(t).get("k") == "bin" and E.strip(t).get("op") == "<" and (CL + "asyncLoopDepth_") in E.mentions(t), "asyncLoopDepth_ budget comparison")
+    nref = 0
+    for s in fl.sites:
+        if s.ev.get("e") == "ret" and E.const(s.ev.get("x")) == 0 and not s.passed("started") and (s.has(budget, True) or s.has(budget, False)):
+            nref += 1
+            if s.has(same, True):
+                ck.ok("T7.refuse-only-same-location", s.where(), "goAsync(): retry-budget refusal is under matchLoc_ == asyncLoc_")
+            else:
+                ck.violation("T7.refuse-only-same-location", "T7|goAsync|budget-refusal-without-same-location", s.where(),
+                             "goAsync() refuses a lookup on the retry budget without having established matchLoc_ == asyncLoc_ (a slow ACL at a *different* tree position "
+                             "would be refused: the rule silently mismatches and a later rule decides)", fl.witness(s))
+    ck.need(nref >= 1, "C44: goAsync() retry-budget refusal not found")
+
+
+    ck.assume("keepMatching()/finished()/asyncInProgress() are inline accessors in Checklist.h (not extracted); Acl::Node::matches(), the equality of the whole evaluation with a reference evaluator over all rule lists and schedules are not decided")
